@@ -315,9 +315,12 @@ def h_serial(ctx, which, shape, scenario):
 
     async def main(loop):
         d, p, t = (rigs.luba_driver if which == "luba" else rigs.sci_driver)(loop)
-        if scenario == "stale-answer":
-            # an answer to an earlier command that arrived after its timeout
-            p.data_received(rigs.luba_event_rx([0x5A]) if which == "luba" else rigs.sci_frame(0x12, 0, 0, 0x5A))
+        if scenario in ("stale-answer", "stale-answers-2"):
+            # an answer to an earlier command that arrived after its timeout (or, on a bus with
+            # other masters, backward frames answering somebody else's queries)
+            for k in range(2 if scenario == "stale-answers-2" else 1):
+                p.data_received(rigs.luba_event_rx([0x5A + k]) if which == "luba"
+                                else rigs.sci_frame(0x12, 0, 0, 0x5A + k))
         if scenario == "stale-info" and which == "sci":
             # e.g. the "DALI NO" status the gateway sends after an unanswered query
             p.data_received(rigs.sci_frame(0x11, 0, 0, 0))
@@ -426,6 +429,9 @@ def cases(tier):
         for which in ("luba", "sci"):
             cs.append(Case("%s-stale-answer-%s" % (which, SHAPES[i][0]), h_serial,
                            {"which": which, "shape": i, "scenario": "stale-answer"}))
+        for which in ("luba", "sci"):
+            cs.append(Case("%s-stale-answers-2-%s" % (which, SHAPES[i][0]), h_serial,
+                           {"which": which, "shape": i, "scenario": "stale-answers-2"}))
         cs.append(Case("sci-stale-info-%s" % SHAPES[i][0], h_serial,
                        {"which": "sci", "shape": i, "scenario": "stale-info"}))
     for mode in ("inflight", "queued"):
